@@ -26,16 +26,18 @@ const (
 )
 
 type Item struct {
-	Kind  itemKind
-	Width int        // scalar width in bytes
-	Field *types.Var // struct field written/read, if the operand is a field
-	Ref   string     // rendered operand
-	Pos   token.Pos
-	Body  []Item            // loop / if-then
-	Else  []Item            // if-else
-	Arms  map[string][]Item // switch: constant name -> items
-	Cond  string
-	Expr  ast.Expr // the operand expression (scalars and byte strings)
+	Kind     itemKind
+	Width    int        // scalar width in bytes
+	Field    *types.Var // struct field written/read, if the operand is a field
+	Ref      string     // rendered operand
+	Pos      token.Pos
+	Body     []Item            // loop / if-then
+	Else     []Item            // if-else
+	Arms     map[string][]Item // switch: constant name -> items
+	Cond     string
+	CondExpr ast.Expr // the condition of an if item
+	Skips    bool     // if item: the body ends the iteration (continue)
+	Expr     ast.Expr // the operand expression (scalars and byte strings)
 	// ConstWidth: for pads/bytes of constant size
 }
 
@@ -167,7 +169,7 @@ func (x *extractor) addPos(obj types.Object, off int, it Item) {
 
 // takePos returns the items recorded for a positional buffer in offset order; gaps, overlaps and items
 // recorded under a different nesting than the transfer make the grammar undecidable.
-func (x *extractor) takePos(obj types.Object, at token.Pos) ([]Item, bool) {
+func (x *extractor) takePos(obj types.Object, at token.Pos, hi int) ([]Item, bool) {
 	ps := x.pos[obj]
 	if len(ps) == 0 {
 		return nil, false
@@ -186,7 +188,12 @@ func (x *extractor) takePos(obj types.Object, at token.Pos) ([]Item, bool) {
 		next = p.off + p.it.Width
 		out = append(out, p.it)
 	}
-	if a, ok := obj.Type().Underlying().(*types.Array); ok && int(a.Len()) != next {
+	if hi >= 0 {
+		// only the window [0:hi) is transferred
+		if hi != next {
+			x.problems = append(x.problems, fmt.Sprintf("positional buffer %s: %d bytes are transferred, %d are described at %s", obj.Name(), hi, next, x.f.w.Pos(at)))
+		}
+	} else if a, ok := obj.Type().Underlying().(*types.Array); ok && int(a.Len()) != next {
 		x.problems = append(x.problems, fmt.Sprintf("positional buffer %s has %d bytes, %d are described at %s", obj.Name(), a.Len(), next, x.f.w.Pos(at)))
 	}
 	return out, true
@@ -312,8 +319,8 @@ func (x *extractor) ioItem(call *ast.CallExpr) (Item, bool, bool) {
 		if x.stream != nil && x.streamOf(sel.X) != x.stream {
 			return Item{}, false, true
 		}
-		if obj, off, _ := x.posBufOf(call.Args[0]); obj != nil && off == 0 && len(x.pos[obj]) > 0 {
-			items, _ := x.takePos(obj, call.Pos())
+		if obj, off, hi := x.posBufOf(call.Args[0]); obj != nil && off == 0 && len(x.pos[obj]) > 0 {
+			items, _ := x.takePos(obj, call.Pos(), hi)
 			return Item{Kind: itLoop, Ref: "splice", Body: items, Pos: call.Pos(), Cond: "splice"}, true, true
 		}
 		// splice of another buffer?
@@ -398,11 +405,11 @@ func (x *extractor) ioItem(call *ast.CallExpr) (Item, bool, bool) {
 	}
 	// a positional buffer meets the stream: Write(hdr[:]) / WriteAt(hdr[:], 0) / io.ReadFull(r, hdr[:]) / Read(hdr[:])
 	if x.writer && f.CallIs(call, "bytes.Buffer.Write", "os.File.WriteAt", "os.File.Write", "io.Writer.Write", "io.WriterAt.WriteAt") && len(call.Args) >= 1 {
-		if obj, off, _ := x.posBufOf(call.Args[0]); obj != nil && off == 0 && len(x.pos[obj]) > 0 {
+		if obj, off, hi := x.posBufOf(call.Args[0]); obj != nil && off == 0 && len(x.pos[obj]) > 0 {
 			if sel, ok := call.Fun.(*ast.SelectorExpr); ok && x.stream != nil && f.CallIs(call, "bytes.Buffer.Write") && x.streamOf(sel.X) != x.stream {
 				return Item{}, false, true
 			}
-			items, _ := x.takePos(obj, call.Pos())
+			items, _ := x.takePos(obj, call.Pos(), hi)
 			return Item{Kind: itLoop, Ref: "splice", Body: items, Pos: call.Pos(), Cond: "splice"}, true, true
 		}
 	}
@@ -464,6 +471,21 @@ func (x *extractor) block(stmts []ast.Stmt) []Item {
 			guard.Body = rest
 			return append(out, guard)
 		}
+		// a marker written branch by branch: `if c { write(1); continue }; write(0); rest` is the scalar c
+		// followed by `if !c { rest }`
+		if n := len(items); n > 0 && items[n-1].Kind == itIf && items[n-1].Skips && len(items[n-1].Body) == 1 && len(items[n-1].Else) == 0 && items[n-1].Body[0].Kind == itScalar && items[n-1].Body[0].Expr != nil && i+1 < len(stmts) {
+			one := x.f.constOf(items[n-1].Body[0].Expr)
+			next := x.stmt(stmts[i+1])
+			if one != nil && one.String() == "1" && len(next) == 1 && next[0].Kind == itScalar && next[0].Width == items[n-1].Body[0].Width && next[0].Expr != nil {
+				if zero := x.f.constOf(next[0].Expr); zero != nil && zero.String() == "0" {
+					ifItem := items[n-1]
+					out = append(out, items[:n-1]...)
+					out = append(out, Item{Kind: itScalar, Width: next[0].Width, Field: x.fieldOf(ifItem.CondExpr), Ref: ifItem.Cond, Pos: ifItem.Pos, Expr: ifItem.CondExpr})
+					rest := x.block(stmts[i+2:])
+					return append(out, Item{Kind: itIf, Cond: ifItem.Cond, Ref: "skip-rest", Pos: ifItem.Pos, Body: rest})
+				}
+			}
+		}
 		out = append(out, items...)
 	}
 	return out
@@ -513,7 +535,15 @@ func (x *extractor) stmt(s ast.Stmt) []Item {
 			}
 			return out
 		}
-		out = append(out, Item{Kind: itIf, Cond: exprKey(y.Cond), Body: body, Else: els, Pos: y.Pos()})
+		// a boolean written as a byte: `if b { write(1) } else { write(0) }` is the scalar b
+		if len(body) == 1 && len(els) == 1 && body[0].Kind == itScalar && els[0].Kind == itScalar && body[0].Width == els[0].Width && body[0].Expr != nil && els[0].Expr != nil {
+			cv1, cv0 := x.f.constOf(body[0].Expr), x.f.constOf(els[0].Expr)
+			if cv1 != nil && cv0 != nil && cv1.String() == "1" && cv0.String() == "0" {
+				out = append(out, Item{Kind: itScalar, Width: body[0].Width, Field: x.fieldOf(y.Cond), Ref: exprKey(y.Cond), Pos: y.Pos(), Expr: y.Cond})
+				return out
+			}
+		}
+		out = append(out, Item{Kind: itIf, Cond: exprKey(y.Cond), CondExpr: y.Cond, Body: body, Else: els, Pos: y.Pos(), Skips: endsWithContinue(y.Body)})
 		return out
 	case *ast.ForStmt:
 		var out []Item
